@@ -1035,6 +1035,19 @@ def slice_to_ascending_slice(
     if key.step is None or key.step > 0:
         return key
 
+    # negative bounds count from the end: restate them as positions for this size
+    if (key.start is not None and key.start < 0) or (key.stop is not None and key.stop < 0):
+        start_pos, stop_pos = key.start, key.stop
+        if start_pos is not None and start_pos < 0:
+            start_pos += size
+            if start_pos < 0: # descending from before the first position
+                return EMPTY_SLICE
+        if stop_pos is not None and stop_pos < 0:
+            stop_pos += size
+            if stop_pos < 0: # runs through the first position
+                stop_pos = None
+        key = slice(start_pos, stop_pos, key.step)
+
     stop = key.start if key.start is None else key.start + 1
 
     if key.step == -1:
